@@ -441,6 +441,55 @@ func C03(r *ev.Run) {
 	r.Sample(recs[0])
 	r.Sample(recs[len(recs)/2])
 
+	// re-used nodes: one expression node evaluated several times with changing operands (a function body called with
+	// different arguments, also by a loop) must give what a freshly parsed expression gives for the same operands
+	reused, reusedBad := 0, 0
+	for _, op := range c03BinOps {
+		for round := 0; round < pick(tier, 2, 8); round++ {
+			var xs, ys []string
+			for k := 0; k < 5; k++ {
+				xs = append(xs, renderToks(rng, rndOperand(rng, kindFor(rng, op, false))))
+				ys = append(ys, renderToks(rng, rndOperand(rng, kindFor(rng, op, true))))
+			}
+			var prog strings.Builder
+			fmt.Fprintf(&prog, "func ff(x, y) {\n    return x %s y\n}\nres := []\n", op)
+			for k := range xs {
+				fmt.Fprintf(&prog, "try {\n    res := add(res, ff(%s, %s))\n} except e {\n    res := add(res, \"error: \" + e.type)\n}\n", xs[k], ys[k])
+			}
+			prog.WriteString("res")
+			e1 := newEcalEnv(1)
+			for k, v := range goEnv {
+				e1.vs.SetValue(k, v)
+			}
+			var got interface{}
+			var gerr error
+			if pm, hung := guarded(10*time.Second, func() { got, gerr = e1.run(prog.String()) }); pm != "" || hung != "" || gerr != nil {
+				continue // totality of single evaluations is judged above
+			}
+			gl, _ := got.([]interface{})
+			for k := range xs {
+				e2 := newEcalEnv(1)
+				for n, v := range goEnv {
+					e2.vs.SetValue(n, v)
+				}
+				var want interface{}
+				var werr error
+				src := fmt.Sprintf("r := null\ntry {\n    r := %s %s %s\n} except e {\n    r := \"error: \" + e.type\n}\nr", xs[k], op, ys[k])
+				if pm, hung := guarded(10*time.Second, func() { want, werr = e2.run(src) }); pm != "" || hung != "" || werr != nil || k >= len(gl) {
+					continue
+				}
+				reused++
+				r.Case("reused:"+op+":"+xs[k]+":"+ys[k]+fmt.Sprint(k), true)
+				if fmt.Sprint(want) != fmt.Sprint(gl[k]) {
+					reusedBad++
+					r.Violation("C03 result of "+op+" depends on an earlier evaluation of the same expression node", fmt.Sprintf("%s %s %s evaluated as the %d. call of func ff(x, y) { return x %s y } gives %v, freshly parsed it gives %v", xs[k], op, ys[k], k+1, op, gl[k], want),
+						map[string]interface{}{"program": prog.String(), "call": k + 1})
+				}
+			}
+		}
+	}
+	r.Set("reused_node_evaluations", reused)
+
 	bad, ok := validateTrace(r, "Expr_Trace", "Expr_Trace.cfg", trace, 60*time.Minute)
 	if !ok {
 		return
